@@ -211,6 +211,8 @@ def check_builder(W, rec, rng):
 def check_dispatcher(W, rec, idx, of):
     DispatcherMiddleware = W["DispatcherMiddleware"]
     segs = ["a", "b", "c", "ab"]
+    # path segments beyond ASCII, as a WSGI server hands them over (UTF-8 bytes read as latin-1)
+    segs_ext = segs + ["\u00e9".encode().decode("latin-1"), "\u2603 x".encode().decode("latin-1")]
     mount_keys = ["/a", "/a/b", "/a/b/c", "/ab", "/b"]
     n = 0
     for k in range(0, len(mount_keys) + 1):
@@ -232,7 +234,7 @@ def check_dispatcher(W, rec, idx, of):
 
             d = DispatcherMiddleware(mk_app("default"), {m: mk_app(m) for m in mk})
             for nn in range(0, 4):
-                for parts in itertools.product(segs, repeat=nn):
+                for parts in itertools.product(segs if nn == 3 else segs_ext, repeat=nn):
                     for trail in ("", "/"):
                         for sn in ("", "/root"):
                             p = "/" + "/".join(parts) + (trail if parts else "")
